@@ -231,8 +231,10 @@ def run(chk):
     observe.quiet_logging()
     rnd = random.Random(chk.seed)
     quick = chk.quick()
-    cfgs = ["GherkinDoc_MC_quick.cfg", "GherkinDoc_MC_quick_detail.cfg"] if quick else \
-           ["GherkinDoc_MC_thorough.cfg", "GherkinDoc_MC_thorough_detail.cfg"]
+    # shape: all structures; detail: all menus on tiny documents; steps: all step-keyword sequences ('*' / And / But first
+    # and after each other) in every container kind below backgrounds of both levels
+    cfgs = ["GherkinDoc_MC_quick.cfg", "GherkinDoc_MC_quick_detail.cfg", "GherkinDoc_MC_quick_steps.cfg"] if quick else \
+           ["GherkinDoc_MC_thorough.cfg", "GherkinDoc_MC_thorough_detail.cfg", "GherkinDoc_MC_thorough_steps.cfg"]
     docs = []
     for cfg in cfgs:
         r = chk.tlc("GherkinDoc_MC", cfg, timeout=840, workers=WORKERS, heap="8g")
@@ -337,10 +339,11 @@ def run(chk):
     chk.extra["rows_not_judged_fragment_not_standalone"] = skipped
     chk.assumptions = ["payload texts are chosen so that no keyword of the document's language reads them as anything but free text",
                        "one argument (table or doc-string) per step; doc-string lines carry no trailing blanks; no tabs inside doc-string indentation",
-                       "'*' never opens a statement (the statement says nothing about its type there); And/But open one only below a background with steps",
+                       "'*' opening a statement is a Given (the keyword table lists '* ' under given first) and the steps after it inherit that; "
+                       "And/But open a statement only below a background with steps",
                        "describe_table / describe_docstring: cells with backslash or newline and doc-strings containing \\\"\\\"\\\" are not judged "
                        "(the renderer escapes them, the parser has no unescaping; outside the statement)",
-                       "languages without '* ' (en-tx, sl): '*' lines are written with an And alias",
+                       "languages without '* ' (en-tx, sl): '*' lines are written with an And alias (a Given alias where '*' opens the statement)",
                        "keyword attributes are compared case-insensitively (the parser matches step keywords case-insensitively and "
                        "reports its table's alias: ht 'Sipoze Ke' comes back as 'Sipoze ke')"]
 
